@@ -209,7 +209,7 @@ async def _run_case(ctx, rng, c, st):
         p, enc, n, ctr0 = c["p"], c["enc"], c["n"], c["ctr0"]
         ctx.case(("req", p, enc, n, ctr0) if n else None)
         gatt, opcode, iid, body, outcome, _ = await _ble_run(rng, p, enc, n, ctr0)
-        rec = _req_record(gatt, opcode, iid, body, p, enc, n, ctr0)
+        rec = {**_req_record(gatt, opcode, iid, body, p, enc, n, ctr0), "_src": {"case": c}}
         recs.append(rec)
         if [f[8] for f in rec["frags"]] != c["lens"]:
             layout_diff[0] += 1            # allowed by the property; the accessory model decides
@@ -224,7 +224,7 @@ async def _run_case(ctx, rng, c, st):
         body = bytes(rng.randrange(256) for _ in range(c["m"]))
         gatt, _, _, _, outcome, kctr = await _ble_run(rng, rng.choice([20, 64, 155]), c["enc"], 0, c["ctr0"], c, body)
         if len(recs) % 4 == 0:
-            recs.append(_resp_record(c, outcome, gatt.reads, kctr, body))
+            recs.append({**_resp_record(c, outcome, gatt.reads, kctr, body), "_src": {"case": c}})
         exp = c["exp"]
         ok = outcome[0] == exp and (exp != "done" or (outcome[1] == c["st"] and outcome[2] == body))
         if not ok:
@@ -268,7 +268,8 @@ async def _run_case(ctx, rng, c, st):
             if vec != wantv:
                 prob = f"result vector {vec}, specification {wantv}"
         if prob is None and api == "read":
-            recs.append({"part": "coap", "items": [list(it) for it in items], "reqtids": tids, "res": vec})
+            recs.append({"part": "coap", "items": [list(it) for it in items], "reqtids": tids, "res": vec,
+                         "_src": {"case": c, "api": "read", "form": getattr(_coap_api, "last_form", None)}})
         if prob:
             fail(("coap-api", api, "request" if prob.startswith("request items") else _shape(items)),
                  f"{api} of a batch with items {items}: {prob}",
@@ -280,6 +281,96 @@ async def _run_case(ctx, rng, c, st):
             sampled.add("coap")
             ctx.sample({"coap_case": c, "api": api, "observed": vec})
 
+
+
+async def _random_run(ctx, kind, n, seed, st):
+    """One execution of the seeded driver.  Everything is drawn from a generator seeded with (seed, kind, n), so the
+    execution can be repeated on another tree from these three values (stored as `src` in records / replay objects)."""
+    import struct
+    from aiohomekit.controller.coap.pdu import OpCode as CoapOp
+    from aiohomekit.controller.coap.pdu import decode_all_pdus, encode_all_pdus
+    recs, fail = st["recs"], st["fail"]
+    src = {"random": kind, "n": n, "seed": seed}
+    rng = random.Random(f"{seed}/{kind}/{n}")
+    random.seed(f"{seed}/{kind}/{n}/tid")          # ble_request draws its transaction id from the global PRNG
+    if kind == "req":
+        enc = rng.randrange(2)
+        p = rng.choice([rng.randrange(8, 65), rng.randrange(8, 600), 20, 155, 244, 496, 512])
+        nb = rng.choice([rng.randrange(0, 3 * p), rng.randrange(0, min(5001, 60 * p)), rng.randrange(0, 300), 0, min(5000, 60 * p)])
+        ctr0 = rng.choice([0, 1, 7, 1000, 10 ** 6]) if enc else 0
+        ctx.case(("req", p, enc, nb, ctr0))
+        gatt, opcode, iid, body, outcome, _ = await _ble_run(rng, p, enc, nb, ctr0)
+        recs.append({**_req_record(gatt, opcode, iid, body, p, enc, nb, ctr0), "_src": src})
+    elif kind == "resp":
+        enc = rng.randrange(2)
+        m = rng.choice([0, rng.randrange(1, 40), rng.randrange(1, 3000)])
+        split = []
+        rest = m
+        first = True
+        while rest > 0 or first:
+            k = rng.choice([0, rest, min(rest, rng.randrange(0, 20)), min(rest, rng.randrange(0, 600))]) if first \
+                else max(1, min(rest, rng.choice([1, 18, 153, 510, rng.randrange(1, 600)])))
+            split.append(k)
+            rest -= k
+            first = False
+            if len(split) > 60:
+                split.append(rest)
+                rest = 0
+        split = [s for k, s in enumerate(split) if k == 0 or s > 0]
+        faults = [("none", 0), ("none", 0), ("tid_first", 1)] + ([("tid_cont", rng.randrange(2, len(split) + 1)),
+                                                                 ("flag_cont", rng.randrange(2, len(split) + 1))] if len(split) > 1 else [])
+        fault, fpos = rng.choice(faults)
+        c = {"m": m, "st": rng.randrange(7), "short": int(m == 0 and rng.random() < 0.5), "split": split if m else [0],
+             "fault": fault, "fpos": fpos, "enc": enc, "ctr0": rng.choice([0, 3, 999]) if enc else 0}
+        ctx.case(("resp", json.dumps(c)))
+        body = bytes(rng.randrange(256) for _ in range(m))
+        gatt, _, _, _, outcome, kctr = await _ble_run(rng, rng.choice([20, 155, 512]), enc, rng.choice([0, 0, 30]), c["ctr0"], c, body)
+        recs.append({**_resp_record(c, outcome, gatt.reads, kctr, body), "_src": src})
+    else:
+        nitems = rng.randrange(1, 7)
+        tlv = rng.random() < 0.5
+        items = []
+        for _ in range(nitems):
+            oc = rng.choice(["ok", "ok", "ok", "err", "tid", "ctl"])
+            ln = rng.choice([0, 3, 300, 5, 260, 700] if tlv else [0, 1, 2, 3, 4, 5, 6, 255, 256, 300, 1000])
+            items.append((oc, rng.randrange(1, 7) if oc == "err" else 0, ln))
+        ctx.case(("coap", tuple(items)))
+        bad_ctl = rng.choice([0x00, 0x04, 0x06, 0x08, 0x0C, 0x0E])
+        if tlv:
+            try:
+                prob, vec, tids, _ = await _coap_api(rng, "read", items, bad_ctl)
+            except Exception as ex:  # noqa: BLE001
+                fail(("coap-api", "read", "raised"), f"read_characteristics of a batch with items {items} raised {type(ex).__name__}: {ex}",
+                     {"items": items, "src": src})
+                return
+            if prob:
+                fail(("coap-api", "read", "request"), f"read of {items}: {prob}", {"items": items, "src": src},
+                     signature=SIG_ITER if "empty request from a one-shot iterable" in prob else None)
+                return
+            recs.append({"part": "coap", "items": [list(it) for it in items], "reqtids": tids, "res": vec, "_src": src})
+        else:
+            # request side: the real encode_all_pdus, parsed by the independent reader
+            iids = [rng.randrange(1, 65536) for _ in items]
+            data = [bytes(rng.randrange(256) for _ in range(rng.choice([0, 1, 300]))) for _ in items]
+            req = encode_all_pdus(rng.choice(list(CoapOp)), iids, data)
+            tids, pos = [], 0
+            shape_ok = True
+            while pos < len(req):
+                _, _, t, i, ln = struct.unpack("<BBBHH", req[pos:pos + 7])
+                shape_ok = shape_ok and len(tids) < len(iids) and i == iids[len(tids)] and req[pos + 7:pos + 7 + ln] == data[len(tids)]
+                tids.append(t)
+                pos += 7 + ln
+            if not shape_ok:
+                fail(("coap-encode",), f"encode_all_pdus({iids}, ...) does not carry the i-th iid/data in the i-th item", {"iids": iids, "src": src})
+            bodies = _coap_bodies(rng, items, tlv=False)
+            wire = _coap_wire(bodies, bad_ctl, tids if len(tids) == len(items) else None)
+            try:
+                res = decode_all_pdus(0, wire)
+                vec = [_classify(r, bodies, i) for i, r in enumerate(res)]
+            except Exception as ex:  # noqa: BLE001
+                fail(("coap-decode", "raised"), f"decode_all_pdus raised {type(ex).__name__}: {ex} on items {items}", {"items": items, "src": src})
+                return
+            recs.append({"part": "coap", "items": [list(it) for it in items], "reqtids": tids, "res": vec, "_src": src})
 
 
 # ------------------------------------------------------------------ the check
@@ -334,86 +425,9 @@ def run(ctx):
 
         # ---------------- (C) seeded random runs
         async def random_runs():
-            nreq = ctx.pick(300, 6000)
-            for _ in range(nreq):
-                enc = rng.randrange(2)
-                p = rng.choice([rng.randrange(8, 65), rng.randrange(8, 600), 20, 155, 244, 496, 512])
-                n = rng.choice([rng.randrange(0, 3 * p), rng.randrange(0, min(5001, 60 * p)), rng.randrange(0, 300), 0, min(5000, 60 * p)])
-                ctr0 = rng.choice([0, 1, 7, 1000, 10 ** 6]) if enc else 0
-                ctx.case(("req", p, enc, n, ctr0))
-                gatt, opcode, iid, body, outcome, _ = await _ble_run(rng, p, enc, n, ctr0)
-                recs.append(_req_record(gatt, opcode, iid, body, p, enc, n, ctr0))
-            for _ in range(ctx.pick(300, 6000)):
-                enc = rng.randrange(2)
-                m = rng.choice([0, rng.randrange(1, 40), rng.randrange(1, 3000)])
-                split = []
-                rest = m
-                first = True
-                while rest > 0 or first:
-                    k = rng.choice([0, rest, min(rest, rng.randrange(0, 20)), min(rest, rng.randrange(0, 600))]) if first \
-                        else max(1, min(rest, rng.choice([1, 18, 153, 510, rng.randrange(1, 600)])))
-                    split.append(k)
-                    rest -= k
-                    first = False
-                    if len(split) > 60:
-                        split.append(rest)
-                        rest = 0
-                split = [s for k, s in enumerate(split) if k == 0 or s > 0]
-                faults = [("none", 0), ("none", 0), ("tid_first", 1)] + ([("tid_cont", rng.randrange(2, len(split) + 1)),
-                                                                         ("flag_cont", rng.randrange(2, len(split) + 1))] if len(split) > 1 else [])
-                fault, fpos = rng.choice(faults)
-                c = {"m": m, "st": rng.randrange(7), "short": int(m == 0 and rng.random() < 0.5), "split": split if m else [0],
-                     "fault": fault, "fpos": fpos, "enc": enc, "ctr0": rng.choice([0, 3, 999]) if enc else 0}
-                ctx.case(("resp", json.dumps(c)))
-                body = bytes(rng.randrange(256) for _ in range(m))
-                gatt, _, _, _, outcome, kctr = await _ble_run(rng, rng.choice([20, 155, 512]), enc, rng.choice([0, 0, 30]), c["ctr0"], c, body)
-                recs.append(_resp_record(c, outcome, gatt.reads, kctr, body))
-            for _ in range(ctx.pick(400, 8000)):
-                nitems = rng.randrange(1, 7)
-                tlv = rng.random() < 0.5
-                items = []
-                for _ in range(nitems):
-                    oc = rng.choice(["ok", "ok", "ok", "err", "tid", "ctl"])
-                    ln = rng.choice([0, 3, 300, 5, 260, 700] if tlv else [0, 1, 2, 3, 4, 5, 6, 255, 256, 300, 1000])
-                    items.append((oc, rng.randrange(1, 7) if oc == "err" else 0, ln))
-                ctx.case(("coap", tuple(items)))
-                bad_ctl = rng.choice([0x00, 0x04, 0x06, 0x08, 0x0C, 0x0E])
-                if tlv:
-                    try:
-                        prob, vec, tids, _ = await _coap_api(rng, "read", items, bad_ctl)
-                    except Exception as ex:  # noqa: BLE001
-                        fail(("coap-api", "read", "raised"), f"read_characteristics of a batch with items {items} raised {type(ex).__name__}: {ex}",
-                             {"items": items})
-                        continue
-                    if prob:
-                        fail(("coap-api", "read", "request"), f"read of {items}: {prob}", {"items": items},
-                             signature=SIG_ITER if "empty request from a one-shot iterable" in prob else None)
-                        continue
-                    recs.append({"part": "coap", "items": [list(it) for it in items], "reqtids": tids, "res": vec})
-                else:
-                    # request side: the real encode_all_pdus, parsed by the independent reader
-                    iids = [rng.randrange(1, 65536) for _ in items]
-                    data = [bytes(rng.randrange(256) for _ in range(rng.choice([0, 1, 300]))) for _ in items]
-                    req = encode_all_pdus(rng.choice(list(CoapOp)), iids, data)
-                    tids, pos = [], 0
-                    import struct
-                    shape_ok = True
-                    while pos < len(req):
-                        _, _, t, i, ln = struct.unpack("<BBBHH", req[pos:pos + 7])
-                        shape_ok = shape_ok and len(tids) < len(iids) and i == iids[len(tids)] and req[pos + 7:pos + 7 + ln] == data[len(tids)]
-                        tids.append(t)
-                        pos += 7 + ln
-                    if not shape_ok:
-                        fail(("coap-encode",), f"encode_all_pdus({iids}, ...) does not carry the i-th iid/data in the i-th item", {"iids": iids})
-                    bodies = _coap_bodies(rng, items, tlv=False)
-                    wire = _coap_wire(bodies, bad_ctl, tids if len(tids) == len(items) else None)
-                    try:
-                        res = decode_all_pdus(0, wire)
-                        vec = [_classify(r, bodies, i) for i, r in enumerate(res)]
-                    except Exception as ex:  # noqa: BLE001
-                        fail(("coap-decode", "raised"), f"decode_all_pdus raised {type(ex).__name__}: {ex} on items {items}", {"items": items})
-                        continue
-                    recs.append({"part": "coap", "items": [list(it) for it in items], "reqtids": tids, "res": vec})
+            for kind, count in (("req", ctx.pick(300, 6000)), ("resp", ctx.pick(300, 6000)), ("coap", ctx.pick(400, 8000))):
+                for n in range(count):
+                    await _random_run(ctx, kind, n, ctx.seed, st)
 
         t0 = _t.time()
         asyncio.run(random_runs())
@@ -451,7 +465,7 @@ def _validate(ctx, tmp, recs, fail):
     vf = os.path.join(tmp, "verdicts.ndjson")
     with open(tf, "w") as f:
         for r in recs:
-            f.write(json.dumps(r) + "\n")
+            f.write(json.dumps({k: v for k, v in r.items() if k != "_src"}) + "\n")
     if os.environ.get("VERIF_DEBUG_KEEP"):
         shutil.copy(tf, os.environ["VERIF_DEBUG_KEEP"])
     res = ctx.tlc("codec/Pdu_Trace", "Pdu_Trace.cfg", env={"TRACE_FILE": tf, "VERDICTS_OUT": vf, **JVM}, expect_violation=True,
@@ -474,7 +488,9 @@ def _validate(ctx, tmp, recs, fail):
             bad = recs[t - 1]
             fail(("trace", _rec_class(bad)),
                  f"recorded execution rejected by Pdu_Trace"
-                 + (f" ({res.violation['name']})" if t == first else "") + f": {json.dumps(bad)[:600]}", {"record": bad})
+                 + (f" ({res.violation['name']})" if t == first else "")
+                 + f": {json.dumps({k: v for k, v in bad.items() if k != '_src'})[:600]}",
+                 {"record": {k: v for k, v in bad.items() if k != "_src"}, "src": bad.get("_src")})
         ctx.trace_ok(len(recs) - len(rejected))
     ctx.sample({"trace_record": recs[len(recs) // 3]})
 
@@ -492,24 +508,30 @@ def _replay_file(ctx):
     st = {"recs": recs, "fail": fail, "layout_diff": [0], "ncoap": [0], "sampled": {"req", "resp", "coap"}}
     tmp = tempfile.mkdtemp(prefix="c17_")
     try:
-        if "case" in data:
-            c = data["case"]
-            if data.get("api"):
-                st["api"], st["form"] = data["api"], data.get("form")
+        src = data.get("src") or ({"case": data["case"], "api": data.get("api"), "form": data.get("form")} if "case" in data else None)
+        if src and "case" in src:                  # a case enumerated by TLC: run it again on this tree
+            c = src["case"]
+            if src.get("api"):
+                st["api"], st["form"] = src["api"], src.get("form")
                 asyncio.run(_run_case(ctx, ctx.rng, c, st))
             else:
                 for k in range(5 if c["part"] == "coap" else 1):       # coap: one run per API path
                     st["ncoap"][0] = k
                     asyncio.run(_run_case(ctx, ctx.rng, c, st))
+            print(f"replay: case {json.dumps(c)[:200]} executed again on this tree ({len(recs)} fresh record(s) for Pdu_Trace)")
+        elif src and "random" in src:              # an execution of the seeded driver: same (seed, kind, n) -> same execution
+            asyncio.run(_random_run(ctx, src["random"], src["n"], src["seed"], st))
+            print(f"replay: seeded driver execution {src} repeated on this tree ({len(recs)} fresh record(s) for Pdu_Trace)")
         elif "record" in data:
             recs.append(data["record"])
-            print("replay: re-validating the stored record against Pdu_Trace (the execution itself is re-run by ./check C17)")
+            print("replay: this file does not say how the record was produced - re-validating the STORED record against "
+                  "Pdu_Trace only (not re-executed on this tree)")
         else:
-            print("replay: case drawn by the seeded driver; run ./check C17 --seed", ctx.seed)
+            print("replay: nothing to re-execute in this file; run ./check C17 --seed", ctx.seed)
             return
         _validate(ctx, tmp, recs, fail)
     finally:
         shutil.rmtree(tmp, ignore_errors=True)
-    print(f"replay: {json.dumps(data.get('case') or data.get('record'))[:300]} -> {'VIOLATION' if groups else 'ok'}")
+    print(f"replay: -> {'VIOLATION' if groups else 'ok'}")
     for key, g in groups.items():
         ctx.violation(g["what"], {"kind": "pdu_case", "key": list(key), **g["replay"]}, signature=g["sig"])
